@@ -197,7 +197,20 @@ func (w *Worker) Close() {
 }
 
 // Call executes one request. A dead or hung worker is restarted once; a second failure is ErrInfra.
+// An execution timeout of a script/module/cjs request is retried twice with a 10 s limit, because
+// on a busy machine millisecond programs occasionally exceed the default 2 s limit.
 func (w *Worker) Call(req Req) (*Resp, error) {
+	r, err := w.call1(req)
+	if err == nil && r.Timeout && req.TimeoutMs < 10000 && (req.Kind == "script" || req.Kind == "module" || req.Kind == "cjs") {
+		for attempt := 0; attempt < 2 && err == nil && r.Timeout; attempt++ {
+			req.TimeoutMs = 10000
+			r, err = w.call1(req)
+		}
+	}
+	return r, err
+}
+
+func (w *Worker) call1(req Req) (*Resp, error) {
 	w.mu.Lock()
 	defer w.mu.Unlock()
 	var lastErr error
@@ -300,6 +313,21 @@ func (w *Worker) Batch(codes []string, prelude string) ([]string, error) {
 	}
 	if len(r.Results) != len(codes) {
 		return nil, fmt.Errorf("%w: batch result arity", ErrInfra)
+	}
+	// A "timeout" of a millisecond-sized script is almost always a scheduling hiccup of the busy
+	// machine: re-run such entries alone with a generous limit before believing them.
+	for i, res := range r.Results {
+		if strings.HasPrefix(res, "timeout") {
+			for attempt := 0; attempt < 2 && strings.HasPrefix(r.Results[i], "timeout"); attempt++ {
+				r2, err := w.Call(Req{Kind: "batch", Codes: []string{codes[i]}, Prelude: prelude, TimeoutMs: 8000})
+				if err != nil {
+					return nil, err
+				}
+				if len(r2.Results) == 1 {
+					r.Results[i] = r2.Results[0]
+				}
+			}
+		}
 	}
 	return r.Results, nil
 }
